@@ -1,8 +1,70 @@
 (* Prop_C27.v — the property theorems of C27 and nothing else. *)
 From Coq Require Import List NArith ZArith Bool.
 Import ListNotations.
-From Verif Require Import Base.Val C18.Fs C27.Model_C27 C27.Spec_C27 C27.Proofs_C27.
+From Verif Require Import Base.Val C18.Fs C27.Model_C27 C27.Spec_C27 C27.Lemmas_C27 C27.Roundtrip_C27 C27.Proofs_C27.
 
-Theorem parse_num_dec : forall n, parse_num (dec n) = Some n.
-Proof. exact parse_num_dec_proof. Qed.
-Print Assumptions parse_num_dec.
+(* storing an entry and reading it back: every known key, the eclass data and the validation
+   value are the ones stored (plain values modulo trailing blanks), nothing else appears *)
+Theorem cache_roundtrip : forall lay e c,
+  wf_entry e -> chf e = Some c ->
+  exists content d,
+    serialize lay e = Some content /\ parse lay content = inl d /\
+    forall k, dget k d = expected_value lay e k.
+Proof. exact cache_roundtrip_proof. Qed.
+Print Assumptions cache_roundtrip.
+
+(* at every crash point k of a store, every path other than the target and the staging file
+   is untouched (or is a directory the store created), and the target holds its old node or
+   the complete new file *)
+Theorem store_frame : forall s loc pid gid cpv content k,
+  cpv <> [] ->
+  let tmp := tmp_path loc pid cpv in
+  let target := target_path loc cpv in
+  let ops := store_ops s loc pid gid cpv content in
+  let sk := run (firstn k ops) s in
+  (forall q, q <> target -> q <> tmp ->
+     lookup sk q = lookup s q \/ (lookup s q = None /\ is_dir_opt (lookup sk q))) /\
+  (lookup sk target = lookup s target \/
+   (exists i, lookup sk target = Some (new_node content gid i)) /\ lookup sk tmp = None /\ (length ops <= k)%nat).
+Proof. exact store_frame_proof. Qed.
+Print Assumptions store_frame.
+
+(* readers of the entry being stored see the previous result or the complete new one *)
+Theorem store_atomic : forall lay s loc pid gid cpv content k,
+  cpv <> [] ->
+  let ops := store_ops s loc pid gid cpv content in
+  let sk := run (firstn k ops) s in
+  read_entry lay sk loc cpv = read_entry lay s loc cpv \/
+  ((length ops <= k)%nat /\ read_entry lay sk loc cpv = parse lay content).
+Proof. exact store_atomic_proof. Qed.
+Print Assumptions store_atomic.
+
+(* readers of any other existing entry are unaffected *)
+Theorem store_others : forall lay s loc pid gid cpv content k cpv',
+  cpv <> [] -> cpv' <> cpv -> target_path loc cpv' <> tmp_path loc pid cpv ->
+  lookup s (target_path loc cpv') <> None ->
+  let sk := run (firstn k (store_ops s loc pid gid cpv content)) s in
+  read_entry lay sk loc cpv' = read_entry lay s loc cpv'.
+Proof. exact store_others_proof. Qed.
+Print Assumptions store_others.
+
+(* the listing (with the '.update.' filter) never reports a partial entry: every key listed at
+   a crash point was listed before the store, or is the stored cpv with its complete new entry *)
+Theorem listing_no_partial : forall lay s loc pid gid cpv content k,
+  cpv <> [] ->
+  let sk := run (firstn k (store_ops s loc pid gid cpv content)) s in
+  listing_ok lay s sk loc cpv (parse lay content).
+Proof. exact listing_no_partial_proof. Qed.
+Print Assumptions listing_no_partial.
+
+Theorem listing_keeps_committed : forall s loc pid gid cpv content k key,
+  cpv <> [] ->
+  let sk := run (firstn k (store_ops s loc pid gid cpv content)) s in
+  In key (keys s loc) -> In key (keys sk loc).
+Proof. exact listing_keeps_proof. Qed.
+Print Assumptions listing_keeps_committed.
+
+(* without the filter (the pinned tree) the listing statement is false *)
+Theorem listing_unrepaired_refuted : ~ listing_ok_unrepaired.
+Proof. exact listing_unrepaired_refuted_proof. Qed.
+Print Assumptions listing_unrepaired_refuted.
